@@ -177,7 +177,7 @@ func (i *interpreter) ensureInit(fr *frame, pkg *ssa.Package) {
 		i.inited[pkg] = true
 	}
 	path := pkg.Pkg.Path()
-	if noInitPkgs[path] {
+	if noInitPkgs[path] || strings.HasPrefix(path, "k8s.io/") || strings.HasPrefix(path, "sigs.k8s.io/") || strings.HasPrefix(path, "github.com/aws/") {
 		return
 	}
 	initFn := pkg.Func("init")
